@@ -206,7 +206,7 @@ func execIo(ops []Op) []string {
 	select {
 	case r := <-done:
 		return r
-	case <-time.After(60 * time.Second):
+	case <-hangAfter(60 * time.Second):
 		return []string{"X timeout => the case did not finish in 60 s"}
 	}
 }
